@@ -1,0 +1,14 @@
+package bloom
+
+// Simulation point sites (see simPoint). They have no effect unless the
+// package is built with the "verif" tag.
+const (
+	siteBeforeLock   = iota + 1 // about to call Lock on the filter mutex
+	siteAfterLock               // just acquired the filter mutex
+	siteBeforeUnlock            // about to release the filter mutex
+	siteHashLoop                // between two hash functions of add/matches
+	siteTxPhase                 // between the output and input phases of matchTxAndUpdate
+	siteTxOutput                // between two outputs of matchTxAndUpdate
+	siteBlockTx                 // between two transactions of a block scan
+	siteCount
+)
